@@ -9,7 +9,13 @@ the real libc (AI_NUMERICHOST, no network), names go to the fixed table NAMES,
 which is handed to the model unchanged.  Independent oracle: ipaddress.
 Listen clause (implementation only): port-less host texts through parse_ipport
 (host vs host:0) and `--listen` values through the real cmdline.main with
-sshuttle.client.main replaced by a recorder."""
+sshuttle.client.main replaced by a recorder.
+Remote clause at its point of use: the real sshuttle.ssh.connect runs up to its Popen call (recorded, nothing is started;
+`ssh`, `myssh`, `sshpass` are empty programs at the head of PATH) on generated remote texts x --ssh-cmd forms x delimiter;
+the argv and SSHPASS are compared with the model's connect_argv (Model/SshArgv.v) and, implementation-only, with the
+user/password/host/port the text denotes.
+Arguments in files (implementation-only): subnets in `-s FILE` / `-X FILE` and arguments in `@FILE` through the real parser
+against the same texts on the command line."""
 import io
 import ipaddress
 import os
@@ -24,12 +30,15 @@ RULE = ("texts x parsers: every generated text is given to parse_subnetport, par
         "printable garbage, non-ASCII digits/letters (real code only); argv = SSHUTTLE_ARGS ++ command line over all store-type options; "
         "listen texts = every generated IPv4 spelling / bracketed IPv6 spelling / table name without a port part (host vs host:0) and "
         "--listen values of one entry or one per family, with and without ports, through the real cmdline.main up to client.main (real code only); "
+        "remote texts x ssh command forms x delimiter through the real ssh.connect up to Popen (argv and SSHPASS); subnets files (-s/-X, comments, blank lines, "
+        "padding, interleaved with -x) and @files (one argument per line, comments, padding, matching quotes) against the command-line spelling (real code only); "
         "a case is non-trivial when at least one of the three readers accepts it or it is a mutant of an accepted text; distinct by content hash")
 TRUSTED_BASE = [
     "modelled, not verified: CPython re (the five regular expressions are re-implemented as structural recognisers), int() incl. the 4300-digit limit, "
     "str.split/rsplit/partition, the idna codec's ASCII fast path, urllib.parse.urlsplit/_hostinfo/port of Python 3.12, ipaddress.ip_address, argparse store semantics",
     "modelled, not verified: glibc 2.36 getaddrinfo for numeric hosts (__inet_aton_exact, inet_pton(AF_INET6), inet_ntop, numeric service -> int -> htons); "
     "differentially tested against the real libc on every run",
+    "ssh.connect's Popen is replaced by a recorder (the argv and the SSHPASS value the child would inherit); shlex.split(ssh_cmd) and the remote command word are inputs of the model's connect_argv",
     "socket.getaddrinfo for NAMES is replaced by the fixed table in harness/props/c16.py (the sandbox has no DNS); the same table is the model's resolver argument",
 ]
 ASSUMPTIONS = [
@@ -556,27 +565,28 @@ def check_subnet_oracle(ctx, s, kind, exp, res, exc):
                        "expected": [exp["fam"], str(want_ip), exp["width"], exp["fp"], exp["lp"]]})
 
 
-def check_hostport_oracle(ctx, s, exp, res):
-    """valid remote specs decompose into what was put in"""
+def hostport_expect(s, exp):
+    """(user, password, port, host) the generated remote text s = [user[:password]@]host[:port] denotes, from the parts the
+    generator put in (spec side: ipaddress for literals); None when the text is outside the documented forms"""
     u, pw, h, p = exp["user"], exp["pw"], exp["host"], exp["port"]
     if u is not None and ":" in u:
-        return
+        return None
     if "@" in h or not re.fullmatch(r"[A-Za-z0-9_.\-]+|\[?[0-9A-Fa-f:]+(\.[0-9.]+)?\]?", h):
-        return
+        return None
     bare = h.strip("[]")
     is6 = ":" in bare
     if is6 and ((h.startswith("[")) != (h.endswith("]"))):
-        return
+        return None
     try:
         want_host = str(ipaddress.ip_address(bare)) if is6 else None
     except ValueError:
-        return
+        return None
     if is6 and p is not None and not h.startswith("["):
-        return      # ambiguous without brackets
+        return None      # ambiguous without brackets
     if not is6 and h.startswith("["):
-        return
+        return None
     if p is not None and not (p.isdigit() and p.isascii() and int(p) <= 65535):
-        return
+        return None
     if not is6:
         if ":" in s.rsplit("@", 1)[-1]:
             want_host = bare.lower()        # observation: a host given with a port is lower-cased
@@ -586,11 +596,152 @@ def check_hostport_oracle(ctx, s, exp, res):
                 pass
         else:
             want_host = bare
+    return u, (pw if pw else None), (None if p is None else int(p)), want_host
+
+
+def check_hostport_oracle(ctx, s, exp, res):
+    """valid remote specs decompose into what was put in"""
+    w = hostport_expect(s, exp)
+    if w is None:
+        return
+    u, pw, p, want_host = w
     o = lambda x: "N" if x is None else hx(x)
-    want = "OK %s %s %s %s" % (o(u), o(pw if pw else None), "N" if p is None else n_hex(int(p)), o(want_host))
+    want = "OK %s %s %s %s" % (o(u), o(pw), "N" if p is None else n_hex(p), o(want_host))
     if res != want:
         ctx.violation("remote specification does not decompose into the user/password/host/port it denotes",
                       {"fn": "parse_hostport", "text": s, "got": res, "expected": want})
+
+
+# ---------------------------------------------------------------------------
+# the remote specification at its point of use: the argv ssh.connect hands to Popen
+
+class SshWorld:
+    """boundary around the real sshuttle.ssh.connect: Popen records (argv, SSHPASS) and starts nothing; `ssh`, `myssh` and
+    `sshpass` exist (as empty programs in a scratch directory at the head of PATH) so that ssh.connect's which() finds them"""
+
+    def __enter__(self):
+        import tempfile
+        import types
+        import sshuttle.ssh as ssh
+        import sshuttle.helpers as helpers
+        self.ssh, self.helpers = ssh, helpers
+        self.dir = tempfile.mkdtemp(prefix="c16-ssh-")
+        for n in ("ssh", "myssh", "sshpass"):
+            pth = os.path.join(self.dir, n)
+            with open(pth, "w") as f:
+                f.write("#!/bin/sh\nexit 0\n")
+            os.chmod(pth, 0o755)
+        self.saved = (ssh.ssubprocess, helpers.log, helpers.verbose, os.environ.get("PATH"), os.environ.get("SSHPASS"))
+        os.environ["PATH"] = self.dir + os.pathsep + (self.saved[3] or "")
+        helpers.log = lambda s: None
+        helpers.verbose = 0
+        world = self
+        self.calls = []
+
+        class FakePopen:
+            pid = 4242
+
+            def __init__(self, argv, stdin=None, **kw):
+                world.calls.append((list(argv), os.environ.get("SSHPASS")))
+                self.keep = os.dup(stdin) if isinstance(stdin, int) else None     # keep the peer end open: no EPIPE
+
+            def poll(self):
+                return None
+        self.FakePopen = FakePopen
+        import subprocess
+        ssh.ssubprocess = types.SimpleNamespace(Popen=FakePopen, PIPE=subprocess.PIPE)
+        return self
+
+    def connect(self, ssh_cmd, rhostport, delim):
+        """-> ('OK', argv, sshpass) | ('RAISE <cls>', None, None)"""
+        os.environ.pop("SSHPASS", None)
+        del self.calls[:]
+        p = rf = wf = None
+        try:
+            try:
+                p, rf, wf = self.ssh.connect(ssh_cmd, rhostport, None, None, delim, None, {"latency_control": True})
+            except Exception as e:      # noqa: BLE001 — the class is the observation
+                return "RAISE " + type(e).__name__, None, None
+            argv, sshpass = self.calls[-1]
+            return "OK", argv, sshpass
+        finally:
+            for f in (rf, wf):
+                if f is not None:
+                    f.close()
+            if p is not None and p.keep is not None:
+                os.close(p.keep)
+
+    def __exit__(self, *a):
+        import shutil
+        self.ssh.ssubprocess, self.helpers.log, self.helpers.verbose = self.saved[:3]
+        for k, v in (("PATH", self.saved[3]), ("SSHPASS", self.saved[4])):
+            if v is None:
+                os.environ.pop(k, None)
+            else:
+                os.environ[k] = v
+        shutil.rmtree(self.dir, ignore_errors=True)
+
+
+SSH_CMDS = [None, "ssh", "ssh -v", "myssh -o 'ProxyCommand=nc %h %p' -F /dev/null", "ssh -i '/home/u/my key' -4"]
+
+
+def ssh_argv_expected(sw, ssh_cmd, want, delim):
+    """the argv (without the remote command) and SSHPASS that start ssh for the user/password/port/host `want`"""
+    import shlex
+    u, pw, port, host = want
+    sshl = shlex.split(ssh_cmd) if ssh_cmd else ["ssh"]
+    argv = (["sshpass", "-e"] if pw is not None else []) + sshl + (["-p", str(port)] if port is not None else []) + \
+        [(u + "@" + host) if u else host] + (["--"] if delim else [])
+    argv[0] = os.path.join(sw.dir, argv[0])
+    return argv, pw
+
+
+def check_ssh_argv(ctx, uniq):
+    """every generated remote text through the real ssh.connect up to the Popen call: model (connect_argv) against the
+    real argv; implementation-only oracle: the words that start ssh carry exactly the user, host and port the text denotes,
+    the password only through SSHPASS behind `sshpass -e`"""
+    import shlex
+    rng = ctx.rng
+    specs = [(s, exp) for s, kind, exp in uniq if kind == "hostport_spec" and exp is not None and s.isascii() and "\0" not in s]
+    valid = [x for x in specs if hostport_expect(*x) is not None and hostport_expect(*x)[3]]
+    rest = [x for x in specs if x not in valid]
+    if ctx.quick():
+        valid = rng.sample(valid, min(len(valid), 350))
+        rest = rng.sample(rest, min(len(rest), 120))
+    lines, cases = [], []
+    with SshWorld() as sw:
+        for i, (s, exp) in enumerate(valid + rest):
+            ssh_cmd = SSH_CMDS[i % len(SSH_CMDS)]
+            delim = bool((i // len(SSH_CMDS)) % 2)
+            st, argv, sshpass = sw.connect(ssh_cmd, s, delim)
+            want = hostport_expect(s, exp)
+            ctx.case(("ssh_argv", s, ssh_cmd, delim), nontrivial=st == "OK",
+                     sample={"kind": "remote -> ssh argv", "text": s, "ssh_cmd": ssh_cmd, "argv_without_command": argv[:-1],
+                             "SSHPASS": sshpass} if i in (3, 11) and argv else None)
+            ctx.count("ssh_argv_" + st.split(" ")[0] + ("_valid_spec" if want is not None and want[3] else "_other"))
+            if want is not None and want[3]:
+                exp_argv, exp_pw = ssh_argv_expected(sw, ssh_cmd, want, delim)
+                got_head = None if argv is None else argv[:-1]
+                if st != "OK" or got_head != exp_argv or sshpass != exp_pw or not argv[-1]:
+                    ctx.violation("remote specification does not reach ssh as the user/password/host/port it denotes",
+                                  {"fn": "ssh_argv", "text": s, "ssh_cmd": ssh_cmd, "delim": delim,
+                                   "got": [st, None if got_head is None else [os.path.basename(got_head[0])] + got_head[1:], sshpass],
+                                   "expected": ["OK", [os.path.basename(exp_argv[0])] + exp_argv[1:], exp_pw]})
+            sshl = shlex.split(ssh_cmd) if ssh_cmd else ["ssh"]
+            cmd = argv[-1] if argv else "CMD"
+            lines.append("ARGV %s %s %d %s" % (",".join(hx(x) for x in sshl), hx(s), 1 if delim else 0, hx(cmd)))
+            if st != "OK":
+                impl = st
+            elif argv[0] == sys.executable:
+                impl = "LOCAL"
+            else:
+                impl = "OK %s SSHPASS=%s" % (",".join(hx(x) for x in [os.path.basename(argv[0])] + argv[1:]),
+                                             "N" if sshpass is None else hx(sshpass))
+            cases.append((s, ssh_cmd, delim, impl))
+    out = ctx.run_driver(lines)
+    for (s, ssh_cmd, delim, impl), m in zip(cases, out):
+        if impl != m:
+            ctx.disagree("connect_argv (ssh.connect up to Popen)", {"text": s[:200], "ssh_cmd": ssh_cmd, "delim": delim}, impl[:500], m[:500])
 
 
 # ---------------------------------------------------------------------------
@@ -732,6 +883,138 @@ def correspondence_argv(ctx, w):
         if want != got:
             ctx.violation("an option given on the command line does not override the one from SSHUTTLE_ARGS",
                           {"fn": "main", "env": et, "argv": ct, "dest": d, "got": repr(got), "expected": repr(want)})
+
+
+# ---------------------------------------------------------------------------
+# arguments and subnets read from files: `@file` (one argument per line) and `-s file` / `-X file` (one subnet per line)
+
+def ns_dict(ns):
+    return dict((k, repr(v)) for k, v in sorted(vars(ns).items()))
+
+
+def decorate_lines(rng, toks, quotes=False):
+    """the lines of a configuration file carrying the arguments toks, one per line, with what the manual allows around
+    them: comment lines, blank lines (subnet files only: see caller), blanks around a line"""
+    out = []
+    for t in toks:
+        if rng.random() < 0.25:
+            out.append("# " + rng.choice(["company-internal API", "home IoT", "--dns", "10.0.0.0/8", ""]))
+        pad_l, pad_r = rng.choice(["", "", " ", "\t", "  "]), rng.choice(["", "", " ", "\t "])
+        if quotes and rng.random() < 0.2 and "'" not in t and '"' not in t:
+            q = rng.choice("'\"")
+            t = q + t + q
+        out.append(pad_l + t + pad_r)
+    if rng.random() < 0.3 or not out:
+        out.append("# trailing comment")        # (an empty line in an @file is an empty ARGUMENT: never produced here)
+    return "\n".join(out) + ("\n" if rng.random() < 0.8 else "")
+
+
+def check_arg_files(ctx, w, uniq):
+    """implementation-only oracle: what is written in a file means what the same text means on the command line"""
+    import shutil
+    import tempfile
+    rng = ctx.rng
+    mc = list(w.options.method_choices)
+    d = tempfile.mkdtemp(prefix="c16-files-")
+    n = 0
+
+    texts = {}
+
+    def write(text):
+        nonlocal n
+        n += 1
+        pth = os.path.join(d, "f%d.conf" % n)
+        with open(pth, "w") as f:
+            f.write(text)
+        texts[pth] = text
+        return pth
+
+    def files_of(argv):
+        return dict((a.lstrip("@"), texts[a.lstrip("@")]) for a in argv if a.lstrip("@") in texts)
+    try:
+        # subnet texts the parser accepts, with a plain shape (no blanks, not option- or comment-like)
+        good = [s for s, kind, exp in uniq if kind in ("v4_spec", "v6_spec", "v4_plain", "v6_plain", "name_spec", "v6_canon_spec")
+                and s.isascii() and s and not any(c.isspace() for c in s) and s[0] not in "#@-'\"" and len(s) < 120]
+        good = [s for s in rng.sample(good, min(len(good), 400)) if impl_sub(w, s)[1].startswith("OK ")]
+        bad = ["1.2.3.4/33", "[::1]/129", "no such host.test", "1.2.3.4:x"]
+        # --- A: -s FILE / -X FILE against positional subnets / -x
+        for i in range(60 if ctx.quick() else 1200):
+            inc = [rng.choice(good) for _ in range(rng.choice([0, 1, 2, 5]))]
+            groups = []             # excludes in command-line order: ("x", text) or ("X", [texts])
+            for _ in range(rng.choice([0, 1, 2, 3])):
+                groups.append(("x", rng.choice(good)) if rng.random() < 0.5 else ("X", [rng.choice(good) for _ in range(rng.choice([0, 1, 3]))]))
+            spoil = rng.random() < 0.12
+            argv_file, argv_cli = [], []
+            if inc or rng.random() < 0.3:
+                lines = list(inc)
+                if spoil:
+                    lines.insert(rng.randrange(len(lines) + 1), rng.choice(bad))
+                argv_file += ["-s", write(decorate_lines(rng, lines).replace("\n#", "\n\n#", 1))]
+            argv_cli += list(inc)
+            for kind, val in groups:
+                if kind == "x":
+                    argv_file += ["-x", val]
+                    argv_cli += ["-x", val]
+                else:
+                    argv_file += ["-X", write(decorate_lines(rng, val))]
+                    for t in val:
+                        argv_cli += ["-x", t]
+            tail = ["-r", "host"] + ([] if inc else ["-N"])
+            cf, nf = impl_argparse(w, argv_file + tail)
+            cc, nc = impl_argparse(w, argv_cli + tail)
+            ctx.case(("subnet_file", tuple(argv_cli), spoil), nontrivial=True,
+                     sample={"kind": "subnets file", "command_line_spelling": argv_cli[:8], "outcome": cf} if i == 2 else None)
+            ctx.count("subnet_file_" + cf.split(":")[0])
+            if spoil and "-s" in argv_file:
+                if cf != "USAGE":
+                    ctx.violation("a subnets file with an unacceptable line does not end in a usage error",
+                                  {"fn": "subnet_file", "argv_file": argv_file + tail, "argv_cli": argv_cli + tail, "files": files_of(argv_file),
+                                   "expect_usage": True, "outcome": cf})
+                continue
+            ok = cf == cc == "OK"
+            if ok:
+                flat_f = [x for sub in (nf.subnets + nf.subnets_file) for x in sub]
+                flat_c = [x for sub in (nc.subnets + nc.subnets_file) for x in sub]
+                ok = flat_f == flat_c and nf.exclude == nc.exclude
+            if not ok:
+                ctx.violation("subnets read from a file (-s / -X) do not mean what the same texts mean on the command line",
+                              {"fn": "subnet_file", "argv_file": argv_file + tail, "argv_cli": argv_cli + tail, "files": files_of(argv_file),
+                               "file_outcome": cf, "cli_outcome": cc,
+                               "file_excludes": None if nf is None else repr(nf.exclude)[:300],
+                               "cli_excludes": None if nc is None else repr(nc.exclude)[:300]})
+        cf, _ = impl_argparse(w, ["-s", os.path.join(d, "does-not-exist"), "-r", "host"])
+        ctx.count("subnet_file_missing_" + cf.split(":")[0])
+        if cf != "USAGE":
+            ctx.violation("a missing subnets file does not end in a usage error", {"fn": "subnet_file_missing", "outcome": cf})
+        # --- B: @FILE (one argument per line) against the same arguments on the command line; command line after it wins
+        for i in range(80 if ctx.quick() else 1500):
+            ft, fa = gen_argv(rng, mc, rng.choice([0, 1, 2, 3, 5]))
+            ct, ca = gen_argv(rng, mc, rng.choice([0, 0, 1, 2]))
+            if any(dn == "namespace" for dn, _ in fa + ca) and sys.platform != "linux":
+                continue
+            subs = [rng.choice(good) for _ in range(rng.choice([0, 1, 3]))]
+            ft += subs
+            # (argparse takes positional subnets from ONE place only: none on the command line when the file has some)
+            pos = [] if subs else ["10.0.0.0/8"]
+            if any(t != t.strip() or t[:1] in ("#", "'", '"') or "\n" in t for t in ft):
+                continue
+            if rng.random() < 0.5:
+                ft.append("--dns")
+            pth = write(decorate_lines(rng, ft, quotes=True))
+            args, (cls, ns) = impl_main_args(w, None, ["@" + pth] + ct + pos)
+            c2, n2 = impl_argparse(w, ft + ct + pos)
+            ctx.case(("argfile", tuple(ft), tuple(ct)), nontrivial=bool(ft),
+                     sample={"kind": "@file", "file_arguments": ft, "cli": ct, "outcome": cls} if i == 1 else None)
+            ctx.count("argfile_" + cls.split(":")[0])
+            if cls != c2 or (ns is not None and ns_dict(ns) != ns_dict(n2)):
+                diff = None if ns is None or n2 is None else \
+                    dict((k, [ns_dict(ns)[k], ns_dict(n2)[k]]) for k in ns_dict(ns) if ns_dict(ns)[k] != ns_dict(n2).get(k))
+                ctx.violation("arguments read from a configuration file (@file, one per line) do not mean what the same arguments "
+                              "mean on the command line",
+                              {"fn": "argfile", "file_arguments": ft, "cli": ct, "argv_file": ["@" + pth] + ct + pos, "argv_cli": ft + ct + pos,
+                               "files": files_of(["@" + pth]), "file_outcome": cls, "cli_outcome": c2, "differences": diff})
+    finally:
+        shutil.rmtree(d, ignore_errors=True)
 
 
 # ---------------------------------------------------------------------------
@@ -1077,6 +1360,12 @@ def correspondence(ctx):
                      "argparse itself swallows the option value '--' (`--to-ns=--` gives an empty list without calling parse_ipport)")
     correspondence_argv(ctx, w)
 
+    # --- remote specifications at their point of use (ssh.connect's argv and SSHPASS)
+    check_ssh_argv(ctx, uniq)
+
+    # --- arguments and subnets written in files
+    check_arg_files(ctx, w, uniq)
+
     # --- listen specifications without a port part (implementation-only: the model has no cmdline.main -> client.main step)
     hosts = listen_hosts(ctx, uniq)
     for h, exp in hosts:
@@ -1114,6 +1403,37 @@ def replay(ctx, rp):
         res, exc = impl_hp(s)
         print("parse_hostport(%r) -> %s ; expected %s" % (s, res, r.get("expected")))
         return res != r.get("expected")
+    if fn in ("subnet_file", "argfile"):
+        for pth, text in r.get("files", {}).items():
+            os.makedirs(os.path.dirname(pth), exist_ok=True)
+            with open(pth, "w") as f:
+                f.write(text)
+        try:
+            cf, nf = impl_argparse(w, r["argv_file"])
+            cc, nc = impl_argparse(w, r["argv_cli"])
+        finally:
+            for pth in r.get("files", {}):
+                try:
+                    os.unlink(pth)
+                    os.rmdir(os.path.dirname(pth))
+                except OSError:
+                    pass
+        print("with the file(s): %s ; same text on the command line: %s" % (cf, cc))
+        if r.get("expect_usage"):
+            return cf != "USAGE"
+        if cf != cc or cf != "OK":
+            return cf != cc
+        flat = lambda ns: [x for sub in (ns.subnets + ns.subnets_file) for x in sub]      # noqa: E731
+        diff = dict((k, [ns_dict(nf)[k], ns_dict(nc)[k]]) for k in ns_dict(nf) if ns_dict(nf)[k] != ns_dict(nc).get(k)
+                    and k not in ("subnets", "subnets_file"))
+        print("differences:", diff, "" if flat(nf) == flat(nc) else "subnets: %r / %r" % (flat(nf), flat(nc)))
+        return bool(diff) or flat(nf) != flat(nc)
+    if fn == "ssh_argv":
+        with SshWorld() as sw:
+            st, argv, sshpass = sw.connect(r.get("ssh_cmd"), s, r.get("delim"))
+            got = [st, None if argv is None else [os.path.basename(argv[0])] + argv[1:-1], sshpass]
+        print("ssh.connect(%r, %r) starts %r ; expected %r" % (r.get("ssh_cmd"), s, got, r.get("expected")))
+        return got != r.get("expected")
     if fn == "argparse":
         o = impl_argparse(w, ["--", s])[0]
         print("parse_args(['--', %r]) -> %s" % (s, o))
